@@ -122,6 +122,15 @@ pub fn utxos_for(sc: &Scenario) -> BTreeMap<String, Vec<Utxo>> {
     m
 }
 
+/// value given to a Bytes parameter: `pol` / `tname` name an asset class, everything else is a memo
+pub fn bytes_param_value(name: &str) -> Vec<u8> {
+    match name {
+        "pol" => POLICY_A.to_vec(),
+        "tname" => b"GOLD".to_vec(),
+        _ => MEMO.to_vec(),
+    }
+}
+
 pub fn args_for(sc: &Scenario) -> ArgMap {
     let mut a: ArgMap = BTreeMap::new();
     for p in &sc.prog.parties {
@@ -131,7 +140,7 @@ pub fn args_for(sc: &Scenario) -> ArgMap {
         let v = match (n.as_str(), t) {
             ("q", _) => ArgValue::Int(sc.q),
             ("n", _) => ArgValue::Int(sc.n),
-            (_, ParamTy::Bytes) => ArgValue::Bytes(MEMO.to_vec()),
+            (n, ParamTy::Bytes) => ArgValue::Bytes(bytes_param_value(n)),
             (_, ParamTy::UtxoRef) => ArgValue::UtxoRef(ref_param()),
             (_, ParamTy::Bool) => ArgValue::Bool(true),
             (_, ParamTy::Int) => ArgValue::Int(9),
@@ -249,7 +258,7 @@ impl<'a> Ev<'a> {
         Ok(match e {
             BytesE::Hex(b) => b.clone(),
             BytesE::Str(s) => s.as_bytes().to_vec(),
-            BytesE::Param(_) => MEMO.to_vec(),
+            BytesE::Param(n) => bytes_param_value(n),
             BytesE::Env(_) => ENV_TAG.to_vec(),
             BytesE::Local(n) => match self.local(n)? {
                 LocalE::Bytes(x) => self.bytes(x)?,
